@@ -11,3 +11,14 @@ claim(
     "CPython 3.12 itertools/functools as reference; error agreement judged on exception class",
     "DESIGN.md 5/C19",
 )
+
+claim(
+    "C16",
+    "reference-model runtime monitor: byte-accounting identity + per-call postconditions on the real wrappers over enumerated inputs/chunkings/call sequences; codecs differential for text",
+    "Held on every executed history: exhaustive over byte strings over {a,b,\\n} up to length 6 (7 thorough) x all "
+    "chunkings x both wrapped-stream kinds x every single call, plus seeded multi-call histories with feed_data and "
+    "longer inputs; text: all 1-/2-cut splits of mixed 1-4-byte code point strings in 8 encodings and send->receive "
+    "round trips. Observational; inputs outside these classes are not judged.",
+    "harness-owned wrapped streams deliver non-empty chunks; stdlib codecs as reference",
+    "DESIGN.md 5/C16",
+)
